@@ -11,6 +11,8 @@ from ..core import bump
 
 ID = 'C02'
 LEVEL = 'exploration'
+IN_PROCESS = True          # scenarios run inside the worker; violations are confirmed in a pristine interpreter (rbqlsim/zygote.py)
+COLD_START_EVERY = 200      # and one run in 200 is executed there in the first place
 TIERS = {
     'quick': {'runs': 120000, 'deadline_s': 90, 'chunk': 250},
     'thorough': {'runs': 2500000, 'deadline_s': 1200, 'chunk': 500},
@@ -169,7 +171,7 @@ def render_csv(rows):
     return wr.rows
 
 
-def run_py(query, producer, join_rows, max_pulls=None, csv_writer=False):
+def run_py(query, producer, join_rows, max_pulls=None, csv_writer=False, latency=None):
     t = core.load_tree()
     if 'c' not in _classes:
         _classes['c'] = make_classes(t)
@@ -193,8 +195,10 @@ def run_py(query, producer, join_rows, max_pulls=None, csv_writer=False):
     return {'outcome': outcome, 'rows': rows, 'pulls': trace['pulls'], 'pulls_at_write': trace['pulls_at_write']}
 
 
-def run_js(query, producer, join_rows, max_pulls=None, csv_writer=False):
+def run_js(query, producer, join_rows, max_pulls=None, csv_writer=False, latency=None):
     req = {'kind': 'query', 'query': query, 'producer': producer, 'max_pulls': max_pulls}
+    if latency:
+        req['write_latency'] = latency     # event-loop turns each write() of the output writer takes before it settles
     if join_rows is not None:
         req['join_rows'] = join_rows
     r = jsbridge.call(req)
@@ -396,6 +400,9 @@ def generate(rng, tier, idx):
             sc['items'] = list(sc['items'])
             sc['items'][rng.choice(free)] = rng.choice(JS_SPECIAL_ITEMS)
             sc['js_only'] = True
+    if rng.random() < 0.15:
+        # rbql-js only: an output writer whose write() settles after a varying number of event-loop turns (a writer doing real I/O)
+        sc['js_write_latency'] = [rng.choice([0, 1, 2, 3]) for _ in range(rng.choice([2, 3, 5]))]
     if rng.random() < 0.3:
         sc['kwcase'] = [rng.choice(['upper', 'lower', 'title', 'title', 'mixed', 'mixed2', 'asis']) for _ in range(rng.choice([1, 2, 3, 5]))]
     sc['engines'] = ['js'] if sc.get('js_only') else ['py', 'js']
@@ -465,7 +472,8 @@ def check_engine(sc, eng, counters, res, digest_parts):
     use_csv = sc.get('writer') == 'csv' and eng == 'py'
 
     def do(query, prod, max_pulls=None, plain=False):
-        r = run(query, prod, join_rows, max_pulls, csv_writer=(use_csv and not plain))
+        r = run(query, prod, join_rows, max_pulls, csv_writer=(use_csv and not plain),
+                latency=(sc.get('js_write_latency') if eng == 'js' and prod['type'] == 'finite' else None))
         res['evals'] += 1
         res['steps'] += r['pulls'] + len(r['pulls_at_write'])
         digest_parts.append([eng, query, r['outcome'], r['rows'], r['pulls']])
@@ -671,6 +679,10 @@ def shrinks(sc):
     if sc.get('kwcase'):
         c = dict(sc)
         c.pop('kwcase')
+        yield c
+    if sc.get('js_write_latency'):
+        c = dict(sc)
+        c.pop('js_write_latency')
         yield c
     if sc.get('bound'):
         b = sc['bound']
